@@ -1,10 +1,11 @@
 """C12 — cross-validation folds partition the data.
 
 * T0: translate/batch_arith.py regenerates Gen/BatchArith.lean (optimalBatchSizes, batchPartitioning);
-  Props/C12.lean is re-proved against it.
-* K-C12: every fold-construction function of CVDatasetTools.h is run on real LabeledData objects and on the
-  native driver of Model/CV.lean; the random draws of the real code are observed and fed to the model, which
-  checks them against its specification relation before applying them (tools/obsfeed.py).
+  Props/C12.lean and Props/C12Ops.lean are re-proved against it.
+* K-C12: histories — one of the fold-construction functions of CVDatasetTools.h on real LabeledData objects, then CVFolds
+  operations, further constructions and nested constructions — are run on the real code and on the native driver of
+  Model/CV.lean (which executes the statement-level loop models); the random draws of the real code are observed and fed
+  to the model, which checks them against its specification relation before applying them (tools/obsfeed.py).
 """
 import os, sys
 from vlib import core
@@ -12,39 +13,64 @@ from checks import dsgen
 
 TRUST = ("Lean 4.33 kernel; axioms at most propext/Classical.choice/Quot.sound (audited per run); "
          "optimalBatchSizes/batchPartitioning machine-translated from the C++ on every run (translate/batch_arith.py trusted, cross-checked "
-         "by the correspondence); fold construction is a hand-written model (Model/CV.lean: the element-dealing loops are modelled by their "
-         "net effect 'fold p receives its elements in processing order, cut by the computed batch sizes') tied to the C++ by the differential "
-         "correspondence only; ")
+         "by the correspondence); fold construction is a hand-written model (Model/CV.lean) that follows the C++ statement by statement "
+         "(validation-size counting, batchPartitioning, the element-dealing loop with batchElements / validationSetStart / batchSizes[batchNumber], "
+         "CVFolds(set, foldStart), detail::complement = copy + std::sort + std::set_difference, the fold loop of createCVBatch) and is tied to the "
+         "C++ by the differential correspondence; ")
 MANIFEST = dict(
-  text=("Theorems (Props/C12.lean, re-proved on every run against the regenerated batch arithmetic) for all partition-size vectors, maximum batch "
-        "sizes, fold counts, index vectors and RNG draws: the machine-translated batchPartitioning returns the prefix sums of the per-partition batch "
-        "counts as fold starts and the concatenated per-partition batch sizes (each block summing to its partition size) -- unconditionally when every "
-        "partition is non-empty, and for empty folds/classes under the explicit hypothesis that the source returns no batch for zero elements (false on "
-        "the unrepaired source: finding F1); CVFolds built from such starts have validation batch sets that are consecutive ranges, pairwise disjoint "
-        "and covering all batches; the validation parts concatenated are exactly the reorganised dataset; training indices are exactly the complement, "
-        "and validation + training elements are a permutation of the dataset; equal-size fold sizes floor(n/k)(+1) sum to n, differ by at most one and "
-        "equal what round-robin dealing delivers; for every admissible (class-sorted) dealing order of createCVSameSizeBalanced any two folds receive counts of "
-        "any class that differ by at most one; for the common tail "
-        "of createCVIndexed / createCVFullyIndexed / createCVIID / createCVSameSizeBalanced (model `regroup`): the reorganised dataset is well-formed, "
-        "keeps its shapes (repaired code, finding F11), is the picked elements grouped by requested fold (a permutation: each exactly once with its "
-        "label), and folds.validation(p) holds exactly the elements assigned to fold p; createCVIndexed yields a permutation of the original pairs; "
-        "createCVSameSize, for every permutation the shuffle may draw, yields a well-formed permutation of the original pairs in exactly the computed "
-        "batch layout with disjoint covering folds. The model is tied to the six fold-construction functions by an exact correspondence in which the "
-        "RNG draws of the real code are observed and checked against the model's relation, on unsigned / RealVector / CompressedRealVector / user-struct inputs under "
-        "ASan/UBSan (thorough tier exhaustive over (n, k, batch size) for n <= 30), plus an independent in-harness oracle for disjointness, cover, "
-        "complement, pairing, fold-size and class balance, requested fold, recreation indices and shape."),
-  note=TRUST + "checked by correspondence + oracle only (no theorem): that the dealing order the real createCVSameSizeBalanced draws is class-sorted (validSeq is "
-       "checked on every observed order) and that the element-dealing loops equal their net effect `regroup`; the RNG "
-       "itself is not modelled. Open findings F1, F11 (findings_proposed/C12.md; F12 and F9 were repaired upstream meanwhile) make the check print VIOLATION on the unrepaired tree.",
-  technique="Lean 4 proofs over the regenerated batch arithmetic, the fold index sets and the regrouping + differential correspondence with observed RNG draws (ASan/UBSan)",
-  design="§6 C12")
+  text=("Theorems (Props/C12.lean, Props/C12Ops.lean, Lemmas/{CVAny,DealLoop,CVEnd,CVMembers}.lean; re-proved on every run against the regenerated "
+        "batch arithmetic) for ALL element counts, fold counts, maximum batch sizes (0 = unlimited included), label distributions, index vectors and "
+        "permutations/draws standing for the RNG, with no side hypothesis left on the batch arithmetic: (1) the generated optimalBatchSizes / "
+        "batchPartitioning are total (0 elements -> no batch; batch size 0 -> one batch) with closed form: fold starts = prefix sums, per fold "
+        "ceil(p/m) non-empty batches <= m that differ by at most one and sum to p (fold_batch_layout, batchPartitioning_with_empty); (2) the "
+        "element-dealing loop of createCVIndexed / createCVFullyIndexed / detail::createCVSameSizeBalanced, modelled with its three vectors, never "
+        "leaves a vector and equals its specification `regroup` for every input (DealLoop.dealLoop_eq, regroupLoop_eq_regroup, dealInto_eq_regroup, "
+        "balancedMembers_eq_regroup: also the batch layout taken from floor(n/k)(+1) beforehand); (3) detail::complement as computed (sort + "
+        "set_difference) = the complement for every index set, unsorted or with repetitions (complement_as_computed, trainingFoldIndices_spec); "
+        "the fold loop of createCVBatch = cutting the shuffled batch numbers into floor(nb/k)(+1) (batchFoldsLoop_eq); (4) for ANY CVFolds object "
+        "(fold starts, explicit index sets in any order, createCVBatch, copies, repeated access) validation(i) = the listed batches in listed order, "
+        "training(i) = exactly the other batches in dataset order, both well-formed with the element shapes kept, together a permutation of the "
+        "dataset (any_folds_validation_training); (5) END TO END from the input dataset to the element lists of validation(p) / training(p): "
+        "createCVIndexed / createCVIID (whatever is drawn) / createCVFullyIndexed: validation(p) = exactly the elements requested for fold p in "
+        "processing order with their labels -- folds that receive no element included --, validation(p) ++ training(p) a permutation of the original "
+        "pairs, shapes of the input kept (createCVIndexed_end_to_end, createCVIID_end_to_end, createCVFullyIndexed_end_to_end, regroup_end_to_end); "
+        "createCVSameSize for every permutation: validation(p) = the p-th piece of the shuffled sequence cut into floor(n/k)(+1), fold sizes differ by "
+        "at most one, validation ++ training a permutation (createCVSameSize_validation_exact, _end_to_end); createCVSameSizeBalanced for every "
+        "class-wise shuffle: per class and pair of folds the member counts in validation(p), validation(q) differ by at most one (classes smaller "
+        "than the fold count and absent classes included), fold sizes floor(n/k)(+1) (createCVSameSizeBalanced_end_to_end), and every outcome of the "
+        "class-wise shuffles is a class-sorted permutation (balanced_dealing_order_class_sorted: a consequence of the loop structure, not an "
+        "assumption); createCVBatch for every shuffle: dataset untouched, validation(i) = the dealt batches, training(i) = the others "
+        "(createCVBatch_end_to_end); nested cross-validation: folds of a training part partition that part and, with the outer validation part, "
+        "the outer dataset (nested_createCVIndexed); (6) the constructions and accessors are defined (no undefined behaviour) for every admissible "
+        "input incl. folds == 1, folds == n, n < batch size, empty folds, more folds than batches (regroup_total, createCVIndexed_total, "
+        "createCVFullyIndexed_total, createCVSameSize_total, createCVSameSizeBalanced_total, createCVSameSizeBalancedMembers_total, createCVBatch_total). The model is tied to the real code by an exact correspondence on histories: one of the six "
+        "construction functions, then CVFolds operations (show again / previous object unchanged / copy / CVFolds from fold starts / from explicit "
+        "unsorted, overlapping or emptied index sets / the same on WeightedLabeledData / a second construction on the reorganised dataset / "
+        "construction on training(i) or validation(i) = nested CV), RNG draws observed and checked against the model's relation, on unsigned / "
+        "RealVector / CompressedRealVector / user-struct inputs x class labels / RealVector regression labels (balanced: detail:: overload with a "
+        "membership vector) under ASan/UBSan (thorough tier exhaustive over (n, k, batch size incl. 0) for n <= 30), plus an independent in-harness "
+        "oracle: training indices = complement, validation/training elements = the batches of the dataset they name, disjointness, cover, pairing, "
+        "fold sizes, class balance, per-fold batch count / batch sizes (ceil, <= max, differ by <= 1), requested fold, recreation indices, shapes, "
+        "repeated access, weights stay with their elements. A third harness binary built WITHOUT NDEBUG runs the corpus and a sample of the "
+        "histories with the assertions of the real code (SIZE_CHECK / SHARK_ASSERT / RANGE_CHECK) active."),
+  note=TRUST + "tied by correspondence only (no theorem): subBatch's gather is modelled as picking the elements before the dealing loop runs; "
+       "SharedContainer::repartition / reorderElements inside createCVSameSize are the C03 models (their loops are proved in C03); sharing of batches between a CVFolds object and the dataset it was built from is not modelled "
+       "(the harness makes subsets independent before repartitioning them, as the documentation demands); the RNG itself is not modelled (every "
+       "theorem holds for all permutations / draws; observed draws are checked against the admissibility relation). createCVSameSizeBalanced: class "
+       "balance is proved for class labels; for the membership-vector overload (regression labels) the window form dealing_class_balance applies. "
+       "Open findings F-C12-1 (CVFolds<WeightedLabeledData>::training does not compile) and F-C12-2 (debug builds abort on an empty last fold; "
+       "createCVIID hits it by chance) are reported as KNOWN-FINDING (findings_proposed/C12.md, patches C12-F-C12-1.patch, C12-F-C12-2.patch).",
+  technique="Lean 4 proofs (loop invariants, refinement of a statement-level model to its specification) over the regenerated batch arithmetic + differential correspondence on histories with observed RNG draws (ASan/UBSan)",
+  design="§6 C12, §14 C12")
 
 FINISH = dict(level="proof",
-              rule="self-contained fold-construction calls (function, fold count, max batch size, initial batching, labels, index vectors, seed) from one "
-                   "SplitMix64 stream, thorough tier additionally all (n, k, batch size) with n <= 30 for samesize/balanced/indexed; non-trivial = "
-                   "at least 2 folds and n not divisible by k or by the batch size; distinct = distinct op text")
+              rule="histories = one fold-construction call (function, fold count, max batch size incl. 0, initial batching, labels, index vectors, seed) "
+                   "followed by 0-4 CVFolds operations / further constructions / nested constructions, all from one SplitMix64 stream; thorough tier "
+                   "additionally all (n, k, batch size) with n <= 30 for samesize/balanced/indexed; non-trivial = a construction with at least 2 folds "
+                   "and n not divisible by k or by the batch size; distinct = distinct op text")
 
-LAKE_TARGETS = ["SharkVerif.Props.C12", "drv_c12"]
+PROPS = ["SharkVerif.Props.C12", "SharkVerif.Props.C12Ops"]
+LAKE_TARGETS = PROPS + ["drv_c12"]
 # (name, harness input type, label type, driver arguments)
 TYPES = [("uint", "uint", "cls", []), ("real", "real", "cls", ["3"]), ("sparse", "sparse", "cls", ["7"]), ("blob", "blob", "cls", []),
          ("real-reg", "real", "reg", ["3"]), ("sparse-reg", "sparse", "reg", ["7"])]
@@ -64,7 +90,9 @@ def build(ctx):
         a = ex.submit(ctx.harness, "c12", ["c12.cpp"], repo_sources=["src/Core/Random.cpp"])
         b = ex.submit(ctx.harness, "c12reg", ["c12.cpp"], flags=["-DC12_REG"], repo_sources=["src/Core/Random.cpp"])
         a, b = a.result(), b.result()
-    return {"cls": a, "reg": b} if a and b else None
+        # debug build (assertions active); built after the other two so that at most two compilers run at a time
+        c = ctx.harness("c12dbg", ["c12.cpp"], flags=["-UNDEBUG"], repo_sources=["src/Core/Random.cpp"])
+    return {"cls": a, "reg": b, "dbg": c} if a and b and c else None
 
 
 def labels_for(ctx, r, n, k):
@@ -200,16 +228,19 @@ def run(ctx):
                         "std::shuffle / random::discrete are treated as arbitrary: the theorems hold for every permutation / draw",
                         "subsets are made independent before they are repartitioned (documented precondition: SharedContainer::repartition throws otherwise)"]
     translate(ctx)
-    ctx.prove(["SharkVerif.Props.C12"])
+    ctx.prove(PROPS)
     if not ctx.quick:
-        ctx.leanchecker(["SharkVerif.Props.C12"])
+        ctx.leanchecker(PROPS)
     exes = build(ctx)
     drv = ctx.driver("drv_c12")
     if not exes or not drv:
         return
     r = ctx.rng.fork("c12")
-    cases = dsgen.load_corpus("C12")
-    ctx.cov["corpus_cases"] = len(cases)
+    corpus = dsgen.load_corpus("C12")
+    ctx.cov["corpus_cases"] = len(corpus)
+    probes = [c for c in corpus if c[0] == "wprobe"]                 # compile-time probes of open findings: run on their own
+    dbg_cases = [c for c in corpus if c[0] == "debug"]               # for the binary built without NDEBUG
+    cases = [c for c in corpus if c[0] not in ("wprobe", "debug")]
     nrand = 2500 if ctx.quick else 10000
     nrand = int(os.environ.get('VERIF_NCASES', nrand))            # self-tests: fewer random calls
     cases += [gen_case(ctx, r) for _ in range(nrand)]
@@ -234,6 +265,25 @@ def run(ctx):
         dcmd = [sys.executable, feed, RNG_OPS, exes[lt], ty, lt, "--", drv, lt, *shape]
         return core.correspond(ctx, f"K-C12[{name}]", cases, hcmd, dcmd, classify, keep_prefix=1, env=dsgen.ASAN_ENV, timeout=900 if ctx.quick else 3600)
     dsgen.run_types(one, dsgen.types(TYPES + ([] if ctx.quick else TYPES_THOROUGH), 'VERIF_C12_TYPES'))
+    if os.environ.get('VERIF_C12_TYPES'):
+        return
+    # open findings that are visible at compile time only
+    core.correspond(ctx, "K-C12[probes]", probes, [exes["cls"], "uint", "cls"],
+                    [sys.executable, feed, RNG_OPS, exes["cls"], "uint", "cls", "--", drv, "cls"], classify, keep_prefix=0,
+                    env=dsgen.ASAN_ENV, timeout=300)
+    # debug build: the assertions (SIZE_CHECK, SHARK_ASSERT, RANGE_CHECK) of the real code must hold on admissible inputs
+    rd = ctx.rng.fork("c12-debug")
+    class _NoCov:                                                     # the debug cases do not enter the input distribution
+        def hist(self, *a, **k): pass
+        def count(self, *a, **k): pass
+    ndbg = 120 if ctx.quick else 600
+    for _ in range(ndbg):
+        c = gen_case(_NoCov(), rd)
+        dbg_cases.append(["debug"] + [l for l in c if l != "new"][: 1 if rd.below(2) else 4])
+    ctx.cov["debug_build_cases"] = len(dbg_cases)
+    core.correspond(ctx, "K-C12[debug-build]", dbg_cases, [exes["dbg"], "uint", "cls"],
+                    [sys.executable, feed, RNG_OPS, exes["dbg"], "uint", "cls", "--", drv, "cls"], classify, keep_prefix=1,
+                    env=dsgen.ASAN_ENV, timeout=900)
 
 
 def classify(ops, res):
@@ -242,6 +292,10 @@ def classify(ops, res):
     if key.startswith("oracle:") and "weighted-folds-training-does-not-compile" in key:
         return ("F-C12-1:cvfolds-weighted-training-does-not-compile",
                 "CVFolds<WeightedLabeledData<I,L>>::training / validation cannot be instantiated: BaseWeightedDataset::indexedSubset returns the base class")
+    if res.crash and "numberOfPartitions == *std::max_element" in res.stderr:
+        return (f"F-C12-2:debug-size-check-rejects-empty-last-fold:{fn}",
+                f"debug build: {fn} aborts on SIZE_CHECK(numberOfPartitions == max(indices)+1) although every fold index is below numberOfPartitions "
+                f"(the last fold receives no element); ops {ops}")
     if key.startswith("oracle:") and "shape-lost" in key:
         return f"F11:shape-lost:{fn}", f"{fn}: the reorganised dataset / its folds lost the input shape; ops {ops}"
     return key, what
